@@ -218,6 +218,70 @@ type roleWalk struct {
 	recvOf  map[string][]string
 	skipIfs []skipIf
 	retName string // name of the identifier the top function returns
+	freshNo  int      // fresh allocations seen so far (`v := &T{…}` gets the role fresh#N until it is published)
+	storeLog []string // canonical left-hand sides of the stores in order (for aliases that go stale in a branch)
+}
+
+// An alias analysis just strong enough for "published through a local pointer":
+//   - `u := &T{…}` gives u the role fresh#N: a function-local allocation; stores through it are stores to a new object;
+//   - a store `X = u` of such a value *publishes* it: the store counts as a fresh allocation assigned to X, and from
+//     here on u (and every other name with that role) is an alias of X — `u.F = …` is a store to X.F;
+//   - a store to X makes every name that aliased the *previous* value of X stale (`stale:X`): stores through it do
+//     not go to the object now reachable as X (re-use of an earlier allocation);
+//   - leaving an if / loop body in which the thing a name aliased was overwritten, the name is both (`merge(…)`).
+func (w *roleWalk) noteStore(env roleEnv, lhs string, rhs ast.Expr) (fresh bool) {
+	for k, r := range env {
+		if r == lhs {
+			env[k] = "stale:" + r
+		}
+	}
+	w.storeLog = append(w.storeLog, lhs)
+	if rhs == nil {
+		return false
+	}
+	if u, ok := rhs.(*ast.UnaryExpr); ok && u.Op == token.AND {
+		if _, ok := u.X.(*ast.CompositeLit); ok {
+			return true
+		}
+	}
+	if r := w.x.canon(rhs, env); strings.HasPrefix(r, "fresh#") && !strings.ContainsAny(r, ".[*") {
+		for k, v := range env {
+			if v == r {
+				env[k] = lhs
+			}
+		}
+		return true
+	}
+	return false
+}
+
+// scoped runs the walk of a branch or loop body and merges the roles of names whose referent was overwritten in it.
+func (w *roleWalk) scoped(env roleEnv, body func()) {
+	before := roleEnv{}
+	for k, v := range env {
+		before[k] = v
+	}
+	n := len(w.storeLog)
+	body()
+	for k, old := range before {
+		for _, l := range w.storeLog[n:] {
+			if old == l {
+				old = "stale:" + old
+				break
+			}
+		}
+		if strings.HasPrefix(old, "stale:") && env[k] != old && !strings.HasPrefix(env[k], "merge(") {
+			env[k] = "merge(" + old + "|" + env[k] + ")"
+		}
+	}
+}
+
+func c13isFreshLit(e ast.Expr) bool {
+	if u, ok := e.(*ast.UnaryExpr); ok && u.Op == token.AND {
+		_, ok := u.X.(*ast.CompositeLit)
+		return ok
+	}
+	return false
 }
 
 func (w *roleWalk) sameCallee(c *ast.CallExpr) (*ast.FuncDecl, string) {
@@ -345,7 +409,10 @@ func (w *roleWalk) stmt(s ast.Stmt, env roleEnv, depth int) {
 		}
 		for i, l := range v.Lhs {
 			if id, ok := l.(*ast.Ident); ok {
-				if len(v.Lhs) == len(v.Rhs) {
+				if len(v.Lhs) == len(v.Rhs) && c13isFreshLit(v.Rhs[i]) {
+					w.freshNo++
+					env[id.Name] = "fresh#" + strconv.Itoa(w.freshNo)
+				} else if len(v.Lhs) == len(v.Rhs) {
 					w.x.assignRole(env, id.Name, v.Rhs[i])
 				} else if len(v.Rhs) == 1 {
 					if c, ok := v.Rhs[0].(*ast.CallExpr); ok {
@@ -358,11 +425,11 @@ func (w *roleWalk) stmt(s ast.Stmt, env roleEnv, depth int) {
 				continue
 			}
 			ev := storeEv{lhs: w.x.canon(l, env)}
+			var rhs ast.Expr
 			if len(v.Lhs) == len(v.Rhs) {
-				if u, ok := v.Rhs[i].(*ast.UnaryExpr); ok && u.Op == token.AND {
-					_, ev.fresh = u.X.(*ast.CompositeLit)
-				}
+				rhs = v.Rhs[i]
 			}
+			ev.fresh = w.noteStore(env, ev.lhs, rhs)
 			w.stores = append(w.stores, ev)
 		}
 	case *ast.IncDecStmt:
@@ -376,7 +443,11 @@ func (w *roleWalk) stmt(s ast.Stmt, env roleEnv, depth int) {
 			for _, sp := range gd.Specs {
 				if vs, ok := sp.(*ast.ValueSpec); ok {
 					for i, n := range vs.Names {
-						if i < len(vs.Values) {
+						if i < len(vs.Values) && c13isFreshLit(vs.Values[i]) {
+							w.exprCalls(vs.Values[i], env, depth)
+							w.freshNo++
+							env[n.Name] = "fresh#" + strconv.Itoa(w.freshNo)
+						} else if i < len(vs.Values) {
 							w.exprCalls(vs.Values[i], env, depth)
 							w.x.assignRole(env, n.Name, vs.Values[i])
 						} else {
@@ -409,10 +480,12 @@ func (w *roleWalk) stmt(s ast.Stmt, env roleEnv, depth int) {
 				w.skipIfs = append(w.skipIfs, si)
 			}
 		}
-		w.block(v.Body, env, depth)
-		if v.Else != nil {
-			w.stmt(v.Else, env, depth)
-		}
+		w.scoped(env, func() {
+			w.block(v.Body, env, depth)
+			if v.Else != nil {
+				w.stmt(v.Else, env, depth)
+			}
+		})
 	case *ast.BlockStmt:
 		w.block(v, env, depth)
 	case *ast.ForStmt:
@@ -422,7 +495,7 @@ func (w *roleWalk) stmt(s ast.Stmt, env roleEnv, depth int) {
 		if v.Cond != nil {
 			w.exprCalls(v.Cond, env, depth)
 		}
-		w.block(v.Body, env, depth)
+		w.scoped(env, func() { w.block(v.Body, env, depth) })
 	case *ast.RangeStmt:
 		w.exprCalls(v.X, env, depth)
 		for _, e := range []ast.Expr{v.Key, v.Value} {
@@ -430,7 +503,7 @@ func (w *roleWalk) stmt(s ast.Stmt, env roleEnv, depth int) {
 				env[id.Name] = "local"
 			}
 		}
-		w.block(v.Body, env, depth)
+		w.scoped(env, func() { w.block(v.Body, env, depth) })
 	case *ast.ReturnStmt:
 		for _, r := range v.Results {
 			w.exprCalls(r, env, depth)
@@ -486,6 +559,9 @@ func c13Build(x *X) {
 				freshFirst = s.fresh
 			}
 			seenURLStore = true
+			continue
+		}
+		if strings.HasPrefix(s.lhs, "fresh#") { // filling in a local allocation before it is published
 			continue
 		}
 		if strings.HasPrefix(s.lhs, "recv.RedirectURL.") {
@@ -768,6 +844,9 @@ func c13Lookup(x *X, soft func(func())) {
 	var shared []string
 	for _, s := range w.stores {
 		if !strings.ContainsAny(s.lhs, ".") {
+			continue
+		}
+		if strings.HasPrefix(s.lhs, "fresh#") { // a function-local allocation that is not (yet) reachable from anywhere else
 			continue
 		}
 		if r := c13rootOf(s.lhs); r != "copy" && r != "p0" || strings.HasPrefix(s.lhs, "*") {
